@@ -597,9 +597,9 @@ def make_wsgi_app(
     # OAuth PKCE browser flow — only when authenticate + OAuth metadata + client_id
     _pkce_active = False
     _pkce_user_info_html: str | None = None
-    _exempt_prefixes_list: list[str] = []
+    _exempt_paths_list: list[str] = []
     if enable_health_endpoint:
-        _exempt_prefixes_list.append(f"{prefix}/health")
+        _exempt_paths_list.append(f"{prefix}/health")
     if (
         authenticate is not None
         and _validated_oauth_metadata is not None
@@ -646,7 +646,7 @@ def make_wsgi_app(
             if _validated_oauth_metadata.scopes_supported
             else "openid email"
         )
-        _exempt_prefixes_list.append(f"{prefix}/_oauth/")
+        _exempt_paths_list.extend(f"{prefix}/_oauth/{name}" for name in ("callback", "logout", "token"))
         _pkce_active = True
         _pkce_user_info_html = build_user_info_html(prefix)
 
@@ -662,7 +662,7 @@ def make_wsgi_app(
             authenticate,
             www_authenticate=www_authenticate,
             on_auth_failure=on_auth_failure,
-            exempt_prefixes=tuple(_exempt_prefixes_list),
+            exempt_paths=tuple(_exempt_paths_list),
         )
     )
     # Sticky middleware runs AFTER auth so AAD binding sees the authenticated
